@@ -405,4 +405,12 @@ def c14(ctx):
                  as_propfail=True, extra_args=("-backups",))
 
 
-PLUGINS = {"C14": c14, "C18": c18, "C15": c15, "C13": c13, "C08": c08, "C11": c11, "C02": c02, "C06": c06, "C10": c10, "C05": c05, "C09": c09, "C04": c04, "C07": c07, "C12": c12}
+def c20(ctx):
+    """C20 repair commands: directly after commits of generated histories the command-line tool's `surgery freelist abandon`, `surgery freelist rebuild` (on files without a persisted freelist),
+    abandon followed by rebuild, and `surgery revert-meta-page` are run in process on the data file; the output is decoded BEFORE any Open touches it (metas valid, freelist cleared / persisted,
+    accounting, content) and then opened (dump = Spec.v state: current, or the previous commit for revert; Tx.Check); SHA-256 of the source before/after."""
+    return _hist(ctx, "c20", "none", HIST_RULE + "; plus repair commands after commits; non-trivial needs at least one", 240, 8000,
+                 as_propfail=True, extra_args=("-surgery",))
+
+
+PLUGINS = {"C20": c20, "C14": c14, "C18": c18, "C15": c15, "C13": c13, "C08": c08, "C11": c11, "C02": c02, "C06": c06, "C10": c10, "C05": c05, "C09": c09, "C04": c04, "C07": c07, "C12": c12}
